@@ -955,7 +955,16 @@ fn run_truncate(
             .map(|p| (p.off + p.rdh.offset_next as usize) as u64)
             .max()
             .unwrap_or(0);
-        if w.end == itsgen::walker::WalkEnd::Clean {
+        // Where offset-to-next and memory size of a packet disagree, the reader (payload mode) consumes bytes by
+        // memory size but counts positions by offset: the walker's boundaries (by offset) are then not where
+        // the program's reading stands. The boundary oracles need them to agree (`framed`); the comparison of
+        // prefix findings only needs that no complete packet reaches beyond its offset (`contained`).
+        let framed = w.pkts.iter().filter(|p| p.complete).all(|p| p.rdh.memory_size == p.rdh.offset_next);
+        let contained = w.pkts.iter().filter(|p| p.complete).all(|p| p.rdh.memory_size <= p.rdh.offset_next);
+        if !framed && !out.labels.iter().any(|l| l == "cut:offset-and-memory-size-disagree") {
+            out.labels.push("cut:offset-and-memory-size-disagree".into());
+        }
+        if framed && w.end == itsgen::walker::WalkEnd::Clean {
             // the cut falls exactly between two packets: nothing is incomplete, so nothing may be reported
             // at or behind the end of the last packet
             if let Some(e) = oracle::error_msgs(&r.stderr).iter().find(|e| e.offset.map_or(false, |o| o >= boundary)) {
@@ -1002,7 +1011,7 @@ fn run_truncate(
                 .map(|(i, _)| i + 1)
                 .max()
                 .unwrap_or(0);
-            if rows.len() < need {
+            if framed && rows.len() < need {
                 out.fail = Some(tag(Fail::new(
                     "truncation",
                     "view-rows-missing",
@@ -1024,7 +1033,7 @@ fn run_truncate(
         };
         let a: Vec<&str> = t_errs.iter().filter(|e| before(e)).map(|e| e.text.as_str()).collect();
         let b: Vec<&str> = u_errs.iter().filter(|e| before(e)).map(|e| e.text.as_str()).collect();
-        if a != b {
+        if contained && a != b {
             out.fail = Some(tag(Fail::new(
                 "truncation",
                 "prefix-findings-differ",
